@@ -8,6 +8,7 @@ import (
 	"fmt"
 	"io"
 	"log"
+	"reflect"
 	"regexp"
 	"strings"
 	"time"
@@ -51,6 +52,7 @@ type Spec struct {
 	SvcLives   []LifeSpec `json:"svc_lives,omitempty"`
 	KDCs       int        `json:"kdcs"`                // configured KDC hosts for the client's realm (1..3), all answering
 	DupKDC     bool       `json:"duplicate_kdc_entry"` // the client's realm lists its first KDC host twice in a row (kdc = A, kdc = A, kdc = B ...)
+	KDCGrace   bool       `json:"kdc_grace,omitempty"` // the KDCs honour a presented ticket up to five minutes after its end time, as KDCs applying their clock skew do
 	Loop       bool       `json:"referral_loop"`       // SPN 2 lives in a realm nobody reaches: the KDCs refer the client round in a circle
 }
 
@@ -109,6 +111,9 @@ func Build(s *Spec) (*World, error) {
 	last := RealmName(s.Hops)
 	for i := 0; i <= s.Hops; i++ {
 		pol := kdc.Policy{Lenient: true, TicketEType: s.ETypes[0]}
+		if s.KDCGrace {
+			pol.ExpiredGrace = 5 * time.Minute
+		}
 		if i == 0 {
 			switch s.Preauth {
 			case "required", "assume":
@@ -392,3 +397,49 @@ func (w *World) RequestProblems() [][2]string {
 }
 
 func nameStr(v any) string { return strings.Join(der.NameStrings(v), "/") }
+
+// DeepCopyConfig copies a Config with everything it points to (slices, maps, the option bit string), so that a later
+// comparison shows whether the library wrote into the caller's configuration.
+func DeepCopyConfig(c *config.Config) *config.Config {
+	return deepCopy(reflect.ValueOf(c)).Interface().(*config.Config)
+}
+
+func deepCopy(v reflect.Value) reflect.Value {
+	switch v.Kind() {
+	case reflect.Ptr:
+		if v.IsNil() {
+			return v
+		}
+		n := reflect.New(v.Type().Elem())
+		n.Elem().Set(deepCopy(v.Elem()))
+		return n
+	case reflect.Struct:
+		n := reflect.New(v.Type()).Elem()
+		n.Set(v) // unexported fields are copied as they are
+		for i := 0; i < v.NumField(); i++ {
+			if n.Field(i).CanSet() {
+				n.Field(i).Set(deepCopy(v.Field(i)))
+			}
+		}
+		return n
+	case reflect.Slice:
+		if v.IsNil() {
+			return v
+		}
+		n := reflect.MakeSlice(v.Type(), v.Len(), v.Len())
+		for i := 0; i < v.Len(); i++ {
+			n.Index(i).Set(deepCopy(v.Index(i)))
+		}
+		return n
+	case reflect.Map:
+		if v.IsNil() {
+			return v
+		}
+		n := reflect.MakeMapWithSize(v.Type(), v.Len())
+		for _, k := range v.MapKeys() {
+			n.SetMapIndex(k, deepCopy(v.MapIndex(k)))
+		}
+		return n
+	}
+	return v
+}
